@@ -39,6 +39,7 @@ import (
 	"github.com/ethereum/go-ethereum/crypto"
 	"github.com/ethereum/go-ethereum/event"
 
+	"jsim/faultdb"
 	"jsim/sim"
 )
 
@@ -389,6 +390,7 @@ type config struct {
 	bursts      bool // several notifications (and possibly the subscription error) pile up while the client is busy
 	keepQueued  bool // a reorg leaves queued logs of the old fork in the queue, followed by their removals
 	adapter     bool // notifications and filter results pass through the production go-ethereum adapter
+	dbFail      bool // a write of the L1 head record may fail (database fault): the failing call reports it, nothing is recorded
 	prodFilter  bool // adapter runs only: the catch-up scan's log query runs through the production GethL1StateProvider.FilterStateUpdate
 	maxBlocks   int
 }
@@ -408,6 +410,14 @@ type world struct {
 	joined   chan struct{}
 	done     chan error
 	restarts int
+
+	// database under the node: one write of the L1 head record may be made to fail
+	fdb           *faultdb.DB
+	firedSeen     int
+	dbFails       int
+	writeFailed   bool // the injected write error fired since the previous quiescent point
+	died          bool // ... and the client's Run returned that error (the node stops; it is restarted)
+	staleByFault  bool // a head write failed and no head has been recorded since
 
 	// model chain
 	blocks  []*mblock // index = Ethereum block number; block 0 has no logs
@@ -666,9 +676,23 @@ func (w *world) observe(feedCh <-chan *core.L1Head) {
 	c := w.c
 	w.mu.Lock()
 	defer w.mu.Unlock()
+	w.writeFailed = false
+	if n := len(w.fdb.Fired); n > w.firedSeen {
+		// the armed write of the L1 head record failed: Blockchain.SetL1Head returned the error
+		w.firedSeen = n
+		w.writeFailed, w.staleByFault = true, true
+		c.Fault("l1head_write_error")
+		w.logf("env: the write of the L1 head record failed (injected)")
+	}
+	w.fdb.Plan.FailWriteAt = 0
 	select {
 	case err := <-done:
-		c.Broken("l1.Client.Run returned before the run ended: %v", err)
+		if !(w.writeFailed && err != nil) {
+			c.Broken("l1.Client.Run returned before the run ended: %v", err)
+		}
+		// the live poll reports a failed head write and the client stops with it: the node goes down
+		w.died = true
+		w.logf("client: Run returned the write error (instance %d stops)", w.inst)
 	default:
 	}
 	if w.scanBroken != "" {
@@ -706,7 +730,9 @@ func (w *world) observe(feedCh <-chan *core.L1Head) {
 			c.Fail("announced_differs", "listener", "OnNewL1Head announced %s but Blockchain.L1Head() is %s", headStr(true, h), headStr(set, &stored))
 		}
 	}
-	if fed != nil {
+	if fed != nil && !w.writeFailed {
+		// (Blockchain.SetL1Head publishes before it writes: after a failed write the feed carried a head
+		// that was not recorded; the statement speaks about the recorded head only)
 		if !set || !(stored.BlockNumber == fed.BlockNumber && stored.BlockHash.Equal(fed.BlockHash) && stored.StateRoot.Equal(fed.StateRoot)) {
 			c.Fail("announced_differs", "feed", "L1-head feed carried %s but Blockchain.L1Head() is %s", headStr(true, fed), headStr(set, &stored))
 		}
@@ -759,11 +785,21 @@ func (w *world) observe(feedCh <-chan *core.L1Head) {
 	}
 
 	// equality at the points the code defines as up to date: a setL1Head has just completed
+	if w.writeFailed {
+		w.expectEq = false // that setL1Head did not complete
+	}
+	if changed && set {
+		w.staleByFault = false
+	}
 	if w.expectEq {
 		w.expectEq = false
 		w.eqChecks++
 		c.Evals++
 		want := w.modelHead(w.expectF)
+		if w.staleByFault {
+			// told apart from every other cause: the last attempt to record a head failed in the database
+			w.expectWhere += "_after_failed_head_write"
+		}
 		switch {
 		case want == nil && w.inst > 1:
 			// a restarted client that was handed no finalised commit leaves the head it found
@@ -1265,6 +1301,15 @@ func (w *world) step() {
 	case phCall:
 		r := w.parked
 		add("ok", 10, func() { w.answerOK(r) })
+		if w.cfg.dbFail && r.kind == "finalised" && !r.probe && w.dbFails < 2 {
+			add("ok_then_head_write_fails", 2, func() {
+				w.dbFails++
+				// the next write into the node's database (only the L1 head record is written in this world) fails
+				w.fdb.Plan.FailWriteAt = w.fdb.Writes + 1
+				w.logf("env: the next write of the L1 head record will fail")
+				w.answerOK(r)
+			})
+		}
 		if w.failEnabled(r.kind) {
 			add("fail", 2, func() { w.answerErr(r) })
 		}
@@ -1374,6 +1419,10 @@ func drawConfig(c *sim.Ctx) config {
 		cfg.restarts = t.Chance("f.restarts", 1, 3)
 		cfg.bursts = t.Chance("f.bursts", 1, 2)
 		cfg.keepQueued = t.Chance("f.keepq", 1, 2)
+	}
+	if cfg.faulty {
+		// its own draw after the older ones (a zero word keeps the database healthy)
+		cfg.dbFail = t.Chance("f.dbfail", 1, 4)
 	}
 	cfg.stale = t.Chance("stale.on", 1, 2)
 	cfg.adapter = t.Chance("adapter", 1, 8)
@@ -1494,7 +1543,8 @@ func C17(c *sim.Ctx) {
 		c.Must(err, "contract.NewStarknetFilterer")
 		w.prod = l1.JsimNewGethFilterProvider(filterer, listener{w})
 	}
-	w.chain = blockchain.New(memory.New(), &networks.Sepolia)
+	w.fdb = faultdb.Wrap(memory.New())
+	w.chain = blockchain.New(w.fdb, &networks.Sepolia)
 	feedSub := w.chain.SubscribeL1Head()
 	w.startClient()
 	defer func() {
@@ -1505,9 +1555,20 @@ func C17(c *sim.Ctx) {
 		c.SimNs += int64(time.Since(w.start))
 	}()
 
+	observe := func() {
+		w.observe(feedSub.Recv())
+		if w.died {
+			// the node went down with the write error; it is started again on the same database
+			w.died = false
+			c.Probe("client_stopped_by_head_write_error")
+			w.stopClient()
+			w.startClient()
+			synctest.Wait()
+		}
+	}
 	for i := 0; i < cfg.steps; i++ {
 		synctest.Wait()
-		w.observe(feedSub.Recv())
+		observe()
 		w.locked(w.step)
 	}
 
@@ -1515,9 +1576,10 @@ func C17(c *sim.Ctx) {
 	// poll complete, so that every run ends with an equality check of an up-to-date client.
 	raise := c.T.Chance("tail.raise", 3, 4)
 	stage := 0 // 0 draining, 1 waiting for the final poll to be answered, 2 done
+	idleTicks := 0
 	for i := 0; i < 400 && stage < 2; i++ {
 		synctest.Wait()
-		w.observe(feedSub.Recv())
+		observe()
 		w.locked(func() {
 			switch w.phase() {
 			case phCall:
@@ -1545,13 +1607,25 @@ func C17(c *sim.Ctx) {
 					w.fin = fc
 					w.logf("env: tail: finalised height -> %d", w.fin)
 				}
+				if stage == 1 {
+					// Bounded liveness, judged only here: no fault is injected any more, the subscription is
+					// live, nothing is queued, every call is answered at once - and the fake clock has passed
+					// idleTicks poll instants without the client asking for the finalised height. Whatever
+					// became final meanwhile is never recorded.
+					idleTicks++
+					if idleTicks >= 3 {
+						c.Fail("liveness", "no_finalised_height_poll_within_3_poll_intervals_in_the_fault_free_tail",
+							"the client is subscribed and idle, %d poll instants (interval %s) passed on the fake clock and FinalisedHeight was not called; finalised=%d stored=%s",
+							idleTicks, w.cfg.poll, w.fin, func() string { h, err := w.chain.L1Head(); return headStr(err == nil, &h) }())
+					}
+				}
 				stage = 1
 				w.sleepLog("tail: to the next finalised-height poll", w.nextTickIn())()
 			}
 		})
 	}
 	synctest.Wait()
-	w.observe(feedSub.Recv())
+	observe()
 	if stage < 2 {
 		c.Inconclusive++
 		c.Logf("tail did not complete")
